@@ -106,12 +106,17 @@ def lp_case(cs, ctx, profile, probe_rate=0.0, probe_cap=64, _confirm=False):
         d = sp.make_opts(rng, spec, twopl=opts['twopl'] if rng.random() < 0.7 else None)
         decoy_argv = ['-na', str(spec['na'])] + sp.opts_to_argv(d, rng)
         ctx.cnt('runs_with_a_second_live_solver_object')
+    stale_text = None
+    if (not _confirm) and rng.random() < 0.03:
+        other = sp.make_spec(random.Random(cs ^ 0x4242), na=spec['na'])
+        stale_text = sp.render(other, rng=random.Random(cs), second_side=True, noise=False)
+        ctx.cnt('runs_after_a_same_size_same_second_rewrite_of_the_path')
     verbose_first = (not _confirm) and rng.random() < 0.04
     if verbose_first:
         ctx.cnt('first_solve_with_msg_true_then_resolve')
     ex = en.run_lp(spec, opts, ctx.workdir, rng, inject=profile.get('inject', True), decoy_argv=decoy_argv,
                    cbc_options=['preprocess off'] if _confirm else None,
-                   solve_kwargs={'msg': True} if verbose_first else None)
+                   solve_kwargs={'msg': True} if verbose_first else None, stale_text=stale_text)
     do_probe = ref['enumerable'] and rng.random() < probe_rate
     cnt = {}
     findings, facts = en.judge_lp(ex, ref, probe_cap=probe_cap if do_probe else 0,
